@@ -10,7 +10,6 @@ HERE = os.path.dirname(os.path.dirname(os.path.abspath(__file__)))
 sys.path.insert(0, os.path.join(HERE, "py"))
 from checks import c23  # noqa: E402
 
-PATCH = "notes/proposed-fixes/C23-call-arguments-ownership.patch"
 PRE = ("prelude: takef(a: List!(Int, _)) = 0, show(a: List(Int, _)) = 0, showall(*a: List(Int, _)) = 0, "
        "C.eat(self, a: List!(Int, _)) = 0, C.mix(self, a: List!(Int, _), b: List(Int, _)) = 0; ")
 # uses the checker never looks at (so they can neither be missed-by-a-broken-mover nor carry a spurious error)
@@ -48,18 +47,18 @@ def keys():
 def main():
     exp = keys()
     findings = [
-        {"property": "C23", "name": "call-receiver-not-checked", "keys": sorted(exp["R1"]), "proposed_fix": PATCH,
+        {"property": "C23", "name": "call-receiver-not-checked", "keys": sorted(exp["R1"]),
          "witness": "v = ![1]\nw = v\nv.push! 1\nx = v[0]\ny = v.get 0   # erg check: no MoveError; `print! v` in the same place is rejected",
-         "what": "the ownership checker never visits the receiver (call.obj) of a call: after `v` was moved (by any of the moving operations) `v.push! 1`, `v[0]` and `v.get 0` are accepted in every scope (OwnershipChecker::check_expr, Expr::Call arm)"},
-        {"property": "C23", "name": "keyword-argument-for-non-default-parameter-not-checked", "keys": sorted(exp["R2"]), "proposed_fix": PATCH,
+         "what": "the ownership checker never visits the receiver (call.obj) of a call: after `v` was moved (by any of the moving operations) `v.push! 1`, `v[0]` and `v.get 0` are accepted in every scope (OwnershipChecker::check_expr, Expr::Call arm). No small safe repair: visiting the receiver / re-pairing the arguments (notes/proposed-fixes/C23-call-arguments-ownership.patch.rejected) makes tests/should_ok/mangling.er fail - `while! do! flg, do!: ... flg.invert!()`: the one-expression lambda body `flg` is moved (check_block, chunk=false), which is only harmless as long as receivers are never checked; a repair has to settle what a block value moves (R5) first"},
+        {"property": "C23", "name": "keyword-argument-for-non-default-parameter-not-checked", "keys": sorted(exp["R2"]),
          "witness": PRE + "v = ![1]\nt = takef a:=v\nprint! v   # accepted: `a:=v` did not move v;  and  w = v / t = takef a:=v / t = show a:=v  are accepted after the move",
-         "what": "keyword arguments are split by the number of DEFAULT parameters before they are looked up by name, so a keyword argument naming a non-default parameter is neither moved (declared List!(Int, _)) nor checked for an earlier move"},
-        {"property": "C23", "name": "variable-arguments-parameter-always-owned", "keys": sorted(exp["R3"]), "proposed_fix": PATCH,
+         "what": "keyword arguments are split by the number of DEFAULT parameters before they are looked up by name, so a keyword argument naming a non-default parameter is neither moved (declared List!(Int, _)) nor checked for an earlier move; the repair tried together with the receiver check was rejected (see call-receiver-not-checked)"},
+        {"property": "C23", "name": "variable-arguments-parameter-always-owned", "keys": sorted(exp["R3"]),
          "witness": PRE + "v = ![1]\nt = showall v\nprint! v   # MoveError: v was moved in line 2, although showall declares *a: List(Int, _) (immutable)",
-         "what": "SubrType::args_ownership gives a `*args` parameter Ownership::Owned unless its type is Ref/RefMut, whatever the declared element type: passing a mutable value for an immutable variable-arguments parameter moves it and every later use is rejected (spurious MoveError)"},
-        {"property": "C23", "name": "method-call-arguments-paired-with-self", "keys": sorted(exp["R4"]), "proposed_fix": PATCH,
+         "what": "SubrType::args_ownership gives a `*args` parameter Ownership::Owned unless its type is Ref/RefMut, whatever the declared element type: passing a mutable value for an immutable variable-arguments parameter moves it and every later use is rejected (spurious MoveError); the repair tried together with the receiver check was rejected (see call-receiver-not-checked)"},
+        {"property": "C23", "name": "method-call-arguments-paired-with-self", "keys": sorted(exp["R4"]),
          "witness": PRE + "c = C.new {x = 1}\nv = ![1]\nt = c.eat v\nprint! v   # accepted (v paired with the ownership of self)\nw = ![1]\nu = c.mix ![0], w\nprint! w   # MoveError although b: List(Int, _) is immutable (w paired with the ownership of a)",
-         "what": "for a method call the positional arguments are zipped with args_ownership().non_defaults, which still starts with `self`: each argument gets the ownership of the parameter before it, so a declared-mutable first parameter does not move and an immutable parameter after a mutable one does"},
+         "what": "for a method call the positional arguments are zipped with args_ownership().non_defaults, which still starts with `self`: each argument gets the ownership of the parameter before it, so a declared-mutable first parameter does not move and an immutable parameter after a mutable one does; the repair tried together with the receiver check was rejected (see call-receiver-not-checked)"},
         {"property": "C23", "name": "block-value-not-moved", "keys": sorted(exp["R5"]),
          "witness": "v = ![1]\nw =\n    k = 1\n    v\nw.push! 2\nprint! v   # accepted, prints [1, 2]: v and w alias",
          "what": "check_block visits every chunk of a multi-statement block with chunk=true, including the last one (the block's value), so binding a variable to the value of a block that ends in `v` does not move `v` (a one-expression block does); no repair proposed: moving the last expression of every block also changes closures/procedure bodies that end in an outer variable"},
